@@ -21,14 +21,14 @@ BET = 'bounded-exhaustive enumeration of inputs/programs (complete up to the siz
 CHECKS = {
     # id: (engine, text, note, technique)
     'C01': ('dbmc', 'Every state reachable within the depth bound from three mid-flight batches (nested groups, always-run jobs, a second update submitted request by request) under real scheduler/canceller sweeps, worker reports incl. duplicates and stale attempts, cancellation of any group, preemption, cleanup sweeps and token-shard flips; per-user and per-group counters recomputed independently from the jobs table in every state.', DB + TX, DBT + '; exhaustive statement-interleaving exploration of operation pairs under a row-lock model'),
-    'C02': ('dbmc', 'Every history (to the depth bound) of attempts on two jobs (root / nested group) with resource registrations before or after start (two resources sharing a de-duplicated id), heartbeats, started/complete reports incl. late and repeated ones, unscheduling, preemption, both compaction routines, billing-date and token-shard changes; per-job, per-group, per-(project,user) and summed-per-day usage recomputed from attempts x attempt_resources in every state; compaction must leave every total unchanged.', DB, DBT),
-    'C03': ('dbmc', 'Every sequence (to the depth bound) of the real operations that write an attempt row (schedule, creating/started/complete reports, heartbeats, unschedule, instance deactivation with each reason) over a 3-value clock on two attempts; the per-transition rules of the statement checked on every row change.', DB, DBT),
-    'C04': ('dbmc', 'Same state space as C01; every jobs-row state change is observed at row-update granularity inside the SQL interpreter and judged against the allowed lifecycle relation; group tallies recomputed in every state.', DB, DBT),
+    'C02': ('dbmc', 'Every history (to the depth bound) of attempts on two jobs (root / nested group) with resource registrations before or after start (two resources sharing a de-duplicated id), heartbeats, started/complete reports incl. late and repeated ones, unscheduling, preemption, both compaction routines, billing-date and token-shard changes; re-registration of the same resource names with other quantities, the completion report of a non-current attempt; per-job, per-group, per-(project,user) and summed-per-day usage recomputed from attempts x attempt_resources in every state, plus an independent ledger of reported resources (a report handled without error must leave its resources registered); compaction must leave every total unchanged.', DB, DBT),
+    'C03': ('dbmc', 'Every sequence (to the depth bound) of the real operations that write an attempt row (schedule, creating/started/complete reports, heartbeats, unschedule with the record of the running sweep and through the real orphan sweep, instance deactivation with each reason) over a 3-value clock on two attempts; the per-transition rules of the statement checked on every row change.', DB, DBT),
+    'C04': ('dbmc', 'Same state space as C01; every jobs-row state change is observed at row-update granularity inside the SQL interpreter and judged against the allowed lifecycle relation; group tallies recomputed in every state; worker outcomes Success / Failed / Error.', DB + TX, DBT + '; exhaustive statement-interleaving exploration of operation pairs under a row-lock model'),
     'C06': ('dbmc', 'Same state space as C01; completion flags, n_jobs and tallies of the batch and every visible group recomputed from job states in every state, also through the real readers _get_batch/_get_job_group.', DB + TX, DBT + '; exhaustive statement-interleaving exploration of operation pairs under a row-lock model'),
     'C39': ('dbmc', 'The complete reachable state graph (BFS to fixpoint) of small batches (chain with an always-run sibling; nested groups) under the real scheduler sweep, the real canceller and orphan sweeps, worker success/failure reports, cancellation of any group and one preemption. Safety on every state and row change; liveness by graph analysis: from every state a state with every committed job terminal is reachable by the system\'s own (fair) transitions, and every bottom SCC of the fair sub-graph consists of such states.', DB + ' Liveness is judged under weak fairness of scheduler/canceller sweeps and worker reports with one instance never preempted.', DBT + '; fair-SCC liveness analysis on the explored graph'),
     'C40': ('vloop', 'Real WeightedSemaphore on a virtual loop: every order of runnable callbacks for <=3-4 tasks with weights <= capacity, bodies that return / raise / are cancelled while holding, and waiters cancelled before being queued, while queued, and after being granted but before resuming; capacity bound, full return of weight and no capacity consumed by cancelled waiters judged on every execution.', VL, VLT),
     'C41': ('dbmc', 'Same state space as C01 with the second update committed late or never; jobs of uncommitted updates must stay Pending, never get attempts (the real scheduler sweep is a transition), and never influence counters, tallies or completion (C01/C06 recomputations restricted to committed updates).', DB + TX, DBT + '; exhaustive statement-interleaving exploration of operation pairs under a row-lock model'),
-    'C05': ('dbmc', 'Every job DAG on 3 (thorough: 4) jobs x every split of the jobs over update 1 / update 2 x always-run choices; for each program every interleaving (to the depth bound) of the requests of the second update, committed at every possible point, with real scheduler sweeps, success/failure reports and canceller sweeps; readiness gating, cancelled-flag propagation and never-stuck-Pending judged on every row change and state.', DB, DBT),
+    'C05': ('dbmc', 'Every job DAG on 3 (thorough: 4) jobs x every split of the jobs over update 1 / update 2 x always-run choices; for each program every interleaving (to the depth bound) of the requests of the second update, committed at every possible point, with real scheduler sweeps, success/failure reports and canceller sweeps; readiness gating, cancelled-flag propagation and never-stuck-Pending judged on every row change and state.', DB + TX, DBT + '; exhaustive statement-interleaving exploration of operation pairs under a row-lock model'),
     'C07': ('dbmc', 'Group trees root>g1>g2 with a sibling; cancellation of any group in any order incl. sub-group before ancestor and repeats, interleaved with real scheduler/canceller sweeps, worker reports and a client submitting groups/jobs/updates beneath the groups; confinement, rejection-without-effect, idempotence, unaffected siblings and error-free scheduling requests judged on every transition.', DB, DBT),
     'C08': ('benum', 'Every bunch of 1-2 job specs for an open update (ids in/outside the reserved range; in-update and absolute parents among earlier, self, later, missing incl. an id reserved by an abandoned update) through the real validator and _create_jobs over the interpreted database; well-formed => accepted, committed and driven to completion by the real scheduler sweep; ill-formed => refused with the database unchanged.', DB, BET),
     'C10': ('dbmc', 'Every history (to the depth bound) of schedule / creating / started / complete / unschedule / deactivate / activate events incl. duplicates and stale attempts for two jobs on a pool instance and a job-private instance; free cores recomputed from live attempts in every state and compared with the table and with the driver\'s in-memory Instance mirror.', DB, DBT),
